@@ -13,6 +13,7 @@
  *   vfork ... endfork    same with vfork (child must end with exit/exec-like commands only)
  *   thread ... endthread run enclosed commands in a new pthread (joined at `join`)
  *   wait                 wait for all children
+ *   touchmany DIR N      N empty files directly in DIR
  *   touch PATH | mkdir PATH | unlink PATH | writefile PATH TEXT | readfile PATH
  *   out N                write N bytes ('x') to stdout, report short/failed writes on stderr
  *   report fds|creds|rlimits|ns|sec|cwd|uts|pid|mounts
@@ -293,6 +294,11 @@ static void run(int from, int to) {
         } else if (!strcmp(c, "join")) { for (int k = 0; k < nthreads; k++) pthread_join(threads[k], NULL); nthreads = 0; }
         else if (!strcmp(c, "wait")) { while (wait(NULL) > 0 || errno == EINTR) ; }
         else if (!strcmp(c, "touch")) { int fd = open(a[1], O_WRONLY | O_CREAT, 0644); say("touch %s = %d\n", a[1], fd < 0 ? -errno : 0); if (fd >= 0) close(fd); }
+        else if (!strcmp(c, "touchmany")) { /* touchmany DIR N: N empty files DIR/m<k>, one report line */
+            long n = num(a[2]), okc = 0; char pb[4096];
+            for (long k = 0; k < n; k++) { snprintf(pb, sizeof pb, "%s/m%ld", a[1], k); int fd = open(pb, O_WRONLY | O_CREAT, 0644); if (fd >= 0) { okc++; close(fd); } }
+            say("touchmany %s = %ld\n", a[1], okc);
+        }
         else if (!strcmp(c, "mkdir")) { int r = mkdir(a[1], 0755); say("mkdir %s = %d\n", a[1], r < 0 ? -errno : 0); }
         else if (!strcmp(c, "unlink")) { int r = unlink(a[1]); say("unlink %s = %d\n", a[1], r < 0 ? -errno : 0); }
         else if (!strcmp(c, "writefile")) { int fd = open(a[1], O_WRONLY | O_CREAT | O_TRUNC, 0644); int r = fd < 0 ? -errno : (int)write(fd, a[2], strlen(a[2])); say("writefile %s = %d\n", a[1], r); if (fd >= 0) close(fd); }
